@@ -487,9 +487,9 @@ type Ctx struct {
 	CG     *callgraph.Graph
 	Assume []Assumption
 	memo   map[string]bool
-	noPhi      bool
-	foldDepth  int
-	reachNoPhi map[*ssa.Function]map[*ssa.BasicBlock]bool
+	foldDepth int
+	phiLvl    int // 0 = top level; k+1 = evaluating at level k
+	reachLvl  map[int]map[*ssa.Function]map[*ssa.BasicBlock]bool
 	// substKey identifies the active parameter substitution (callee examined
 	// on behalf of one call site), part of the memo key
 	substKey string
@@ -536,7 +536,7 @@ func (c *Ctx) fold(cond ssa.Value) (bool, bool) {
 		cond = u.X
 		neg = !neg
 	}
-	if ph, isPhi := cond.(*ssa.Phi); isPhi && len(c.Assume) > 0 && !c.noPhi && c.foldDepth < 4 {
+	if ph, isPhi := cond.(*ssa.Phi); isPhi && len(c.Assume) > 0 && c.phiLevel() > 0 && c.foldDepth < 4 {
 		// a condition computed earlier (ok := a || b; if ok ...): all feasible
 		// incoming edges carry the same truth value
 		c.foldDepth++
@@ -1565,7 +1565,7 @@ func (c *Ctx) dependsOnAssumption(v ssa.Value, d int) bool {
 		return c.dependsOnAssumption(x.X, d+1)
 	case *ssa.Phi:
 		// the assumptions select among its incoming edges
-		if c.noPhi {
+		if c.phiLevel() == 0 {
 			return false
 		}
 		for i, ed := range x.Edges {
@@ -1599,7 +1599,7 @@ func (c *Ctx) evalInt(v ssa.Value, d int) (constant.Value, bool) {
 		// the value of a phi all of whose feasible incoming edges carry the
 		// same constant (feasibility is decided without this rule, which can
 		// only keep more edges: sound)
-		if c.noPhi {
+		if c.phiLevel() == 0 {
 			return nil, false
 		}
 		var got constant.Value
@@ -1648,23 +1648,39 @@ func (c *Ctx) evalInt(v ssa.Value, d int) (constant.Value, bool) {
 }
 
 // edgeFeasible: the CFG edge pred -> b can be taken under the assumptions
-// (pred reachable from the entry and the edge not folded away), computed
-// without phi evaluation.
+// (pred reachable from the entry and the edge not folded away).  Phi
+// evaluation is stratified to stay well-founded: feasibility at level k is
+// decided with phis evaluated at level k-1; level 0 evaluates no phi.  Each
+// level can only prune more edges than the one below and every pruning is
+// justified by the assumptions, so all levels are sound.
 func (c *Ctx) edgeFeasible(pred, b *ssa.BasicBlock) bool {
-	saved := c.noPhi
-	c.noPhi = true
-	defer func() { c.noPhi = saved }()
-	fn := pred.Parent()
-	if c.reachNoPhi == nil {
-		c.reachNoPhi = map[*ssa.Function]map[*ssa.BasicBlock]bool{}
+	lvl := c.phiLevel() - 1
+	if lvl < 0 {
+		return true
 	}
-	reach, ok := c.reachNoPhi[fn]
+	saved := c.phiLvl
+	c.phiLvl = lvl + 1 // stored shifted by one so that the zero value means "top"
+	defer func() { c.phiLvl = saved }()
+	fn := pred.Parent()
+	if c.reachLvl == nil {
+		c.reachLvl = map[int]map[*ssa.Function]map[*ssa.BasicBlock]bool{}
+	}
+	if c.reachLvl[lvl] == nil {
+		c.reachLvl[lvl] = map[*ssa.Function]map[*ssa.BasicBlock]bool{}
+	}
+	reach, ok := c.reachLvl[lvl][fn]
 	if !ok {
 		reach = map[*ssa.BasicBlock]bool{}
-		for _, x := range c.ReachableBlocks(fn) {
+		c.reachLvl[lvl][fn] = reach // recursion guard: an empty set prunes nothing below
+		for _, x := range fn.Blocks {
 			reach[x] = true
 		}
-		c.reachNoPhi[fn] = reach
+		precise := map[*ssa.BasicBlock]bool{}
+		for _, x := range c.ReachableBlocks(fn) {
+			precise[x] = true
+		}
+		c.reachLvl[lvl][fn] = precise
+		reach = precise
 	}
 	if !reach[pred] {
 		return false
@@ -1675,6 +1691,16 @@ func (c *Ctx) edgeFeasible(pred, b *ssa.BasicBlock) bool {
 		}
 	}
 	return false
+}
+
+const topPhiLevel = 2
+
+// phiLevel: the level at which phis are evaluated now (0 = not at all).
+func (c *Ctx) phiLevel() int {
+	if c.phiLvl == 0 {
+		return topPhiLevel
+	}
+	return c.phiLvl - 1
 }
 
 // succsUnder: the successors of b that are feasible under the assumptions.
